@@ -116,9 +116,10 @@ def W.await (w : W) (a : Nat) : String × W :=
   | none => ("nofuture", w)
   | some r =>
     if r.fut != .pending then ("nofuture", w) else
+    -- `started_rx` resolves with `Err(Start)` once the failure was sent, with `Ok` once `started_tx.send(Ok)` ran
+    if r.st.startReported then ("startfail", w.setActor { r with fut := .resolved }) else
     match r.st.pc with
-    | .init => ("pending", w)
-    | .startFailed => ("startfail", w.setActor { r with fut := .resolved })
+    | .init | .failRelease | .failReport | .failReturn | .startFailed | .preStarted => ("pending", w)
     | _ => ("started", w.setActor { r with fut := .resolved, has := true })
 
 def W.dropFut (w : W) (a : Nat) : String × W :=
